@@ -1031,6 +1031,29 @@ def newton_objective(P, rep, rule="NEWTON.objective"):
                 key="%s|%s|accept" % (rule, system),
                 witness="an oblique trench at latitude 60: the reported closest point is several per cent farther away than the nearest curve point"
                 if system == "spherical" else "a point off a curved trench")
+    # every part of the curve is a candidate: nothing leaves an iteration of the loop over the parts before its accept test
+    for g, c in sites:
+        seg_loop = astq.enclosing(F, g, ("ForStmt", "CXXForRangeStmt", "WhileStmt"))
+        if seg_loop is None:
+            rep.unknown(rule, "accept test at %s is not inside a loop over the curve parts" % F.nloc(g))
+            continue
+        skips = []
+        for y in F.walk(seg_loop):
+            if y.get("k") in ("ContinueStmt", "BreakStmt") and (y.get("l") or 0) < (g.get("l") or 0):
+                inner = astq.enclosing(F, y, astq.LOOPS + ("SwitchStmt",))
+                if inner is seg_loop:
+                    skips.append(y)
+            if y.get("k") == "ReturnStmt" and (y.get("l") or 0) < (g.get("l") or 0) and not any(
+                    z.get("k") in ("CallExpr", "CXXMemberCallExpr") and z.get("callee") == F.key for z in F.walk(y)):
+                skips.append(y)
+        system = system_of(g) or "?"
+        if skips:
+            rep.violation(rule, "%s: the loop over the curve parts is left by `%s` before the accept test" % (system, norm.render(P, skips[0])[:40]),
+                          F.nloc(skips[0]), F.qn, norm.render(P, F.parent.get(skips[0]["i"]) or skips[0])[:160],
+                          "a part of the curve is not searched: the nearest point may lie on it", key="%s|%s|skip" % (rule, system),
+                          witness="a point almost equidistant to two parts of the curve, the later one bulging towards it")
+        else:
+            rep.ok(rule, "%s: every part of the curve reaches the accept test" % system, F.nloc(seg_loop), F.qn)
     # Newton steps: update = clamp(num / den)
     nsteps = 0
     for x in F.walk():
